@@ -571,16 +571,16 @@ Proof. vm_compute. reflexivity. Qed.
 
 (* ------------------------------------------------------------ the harness-driven server *)
 Lemma run_chunks_concat : forall rule keyfn chs c,
-  concat (run_chunks rule keyfn c chs) = snd (run rule keyfn c (concat chs)).
+  concat (map fst (run_chunks rule keyfn c chs)) = snd (run rule keyfn c (concat chs)).
 Proof.
-  induction chs as [|ch chs IH]; intro c; cbn [run_chunks concat]; [reflexivity|].
-  rewrite run_app. destruct (run rule keyfn c ch) as [c' os]. cbn [concat]. rewrite IH.
+  induction chs as [|ch chs IH]; intro c; cbn [run_chunks concat map]; [reflexivity|].
+  rewrite run_app. destruct (run rule keyfn c ch) as [c' os]. cbn [concat map fst]. rewrite IH.
   now destruct (run rule keyfn c' (concat chs)).
 Qed.
 
 (* the observations [serve] prints are a regrouping of the outcomes of the server's history *)
 Lemma serve_outcomes : forall rule keyfn start ops,
-  concat (run_chunks rule keyfn [] (chunks start (start + clean_period) ops))
+  concat (map fst (run_chunks rule keyfn [] (chunks start (start + clean_period) ops)))
   = outcomes rule keyfn (server_history start ops).
 Proof. intros. apply run_chunks_concat. Qed.
 
